@@ -12,6 +12,13 @@ Inside(r, R) == r[1] >= R[1] /\ r[2] >= R[2] /\ RightEdge(r) <= RightEdge(R) /\ 
 \* interiors do not meet (touching edges allowed; empty boxes meet nothing)
 Disjoint(a, b) == \/ a[3] = 0 \/ a[4] = 0 \/ b[3] = 0 \/ b[4] = 0
                   \/ RightEdge(a) <= b[1] \/ RightEdge(b) <= a[1] \/ BottomEdge(a) <= b[2] \/ BottomEdge(b) <= a[2]
+\* the same with a tolerance t (layouts whose coordinates had to be rounded)
+InsideT(r, R, t) == r[1] >= R[1] - t /\ r[2] >= R[2] - t /\ RightEdge(r) <= RightEdge(R) + t /\ BottomEdge(r) <= BottomEdge(R) + t
+DisjointT(a, b, t) == \/ a[3] = 0 \/ a[4] = 0 \/ b[3] = 0 \/ b[4] = 0
+                      \/ RightEdge(a) <= b[1] + t \/ RightEdge(b) <= a[1] + t
+                      \/ BottomEdge(a) <= b[2] + t \/ BottomEdge(b) <= a[2] + t
+Abs(x) == IF x < 0 THEN -x ELSE x
+CloseTuple(a, b, t) == Len(a) = Len(b) /\ \A i \in DOMAIN a : Abs(a[i] - b[i]) <= t
 TransposeRect(r) == <<r[2], r[1], r[4], r[3]>>
 TransposePoint(p) == <<p[2], p[1]>>
 =============================================================================
